@@ -160,7 +160,7 @@ theorem minigo_correct (p : Prog) (l : List V) (st' : Option (List V))
     have : rw 0 0 (compile (leaves p) p.body) = compile (leaves p) p.body := rw_noPH 0 0 _ hwf
     simp [compileProg, this]
   have := (Goat.Props.C06.compile_correct (leavesOK P p) h (compileProg p) 0 0 0 [] hc).1
-  simpa [compileProg, offs] using this
+  simpa [compileProg, tgt, offs] using this
 
 
 /-- **leaf_steps_are_real.** Each macro step of the control-flow machine over a leaf is what the
